@@ -474,9 +474,11 @@ class VirtualFileSystem(FileSystem[str]):
     def walk_folder(self, folder: str = '') -> Iterator[File[Self]]:
         """Return all files that are 'subfolders' of the provided folder."""
         folder = self._clean_path(folder)
+        if folder == '.':  # The root, everything matches.
+            folder = ''
 
-        for filename, data in self._mapping.values():
-            if filename.startswith(folder):
+        for key, (filename, data) in self._mapping.items():
+            if not folder or key.startswith(folder + '/'):
                 yield File(self, filename, filename)
 
     def _file_exists(self, name: str) -> bool:
